@@ -83,3 +83,125 @@ def colour_inside_acc():
     return any(lp.loop_type == "colours" and
                lp.ancestor(ACCParallelDirective) is not None
                for lp in sched.walk(LFRicLoop))
+
+
+# kernels whose iteration-space argument lives on a discontinuous space while
+# another argument is incremented on a continuous one (text taken from the
+# demonstration of seeded change C23b)
+PROLONG_KERNEL = '''\
+module prolong_w3_kernel_mod
+  use argument_mod
+  use fs_continuity_mod
+  use kernel_mod
+  use constants_mod
+  implicit none
+  type, public, extends(kernel_type) :: prolong_w3_kernel_type
+     private
+     type(arg_type) :: meta_args(2) = (/                               &
+          arg_type(GH_FIELD, GH_REAL, GH_INC,  W1, mesh_arg=GH_FINE),  &
+          arg_type(GH_FIELD, GH_REAL, GH_READ, W3, mesh_arg=GH_COARSE) &
+          /)
+     integer :: operates_on = CELL_COLUMN
+   contains
+     procedure, nopass :: code => prolong_w3_kernel_code
+  end type prolong_w3_kernel_type
+contains
+  subroutine prolong_w3_kernel_code()
+  end subroutine prolong_w3_kernel_code
+end module prolong_w3_kernel_mod
+'''
+
+OP_INC_KERNEL = '''\
+module op_inc_kernel_mod
+  use argument_mod
+  use fs_continuity_mod
+  use kernel_mod
+  use constants_mod
+  implicit none
+  type, public, extends(kernel_type) :: op_inc_kernel_type
+     private
+     type(arg_type) :: meta_args(3) = (/                     &
+          arg_type(GH_OPERATOR, GH_REAL, GH_WRITE, W3, W3),  &
+          arg_type(GH_FIELD,    GH_REAL, GH_INC,   W1),      &
+          arg_type(GH_FIELD,    GH_REAL, GH_READ,  W2)       &
+          /)
+     integer :: operates_on = CELL_COLUMN
+   contains
+     procedure, nopass :: code => op_inc_kernel_code
+  end type op_inc_kernel_type
+contains
+  subroutine op_inc_kernel_code()
+  end subroutine op_inc_kernel_code
+end module op_inc_kernel_mod
+'''
+
+ALG = '''\
+program c23_demo
+  use field_mod,             only: field_type
+  use operator_mod,          only: operator_type
+  use prolong_w3_kernel_mod, only: prolong_w3_kernel_type
+  use op_inc_kernel_mod,     only: op_inc_kernel_type
+  implicit none
+  type(field_type)    :: fine, coarse, f1, f2
+  type(operator_type) :: mm
+  call invoke( name="prolong", prolong_w3_kernel_type(fine, coarse) )
+  call invoke( name="op_inc",  op_inc_kernel_type(mm, f1, f2) )
+end program c23_demo
+'''
+
+
+
+
+def _special(invoke_name, dm):
+    import tempfile
+    from psyclone.configuration import Config
+    from psyclone.parse.algorithm import parse
+    from psyclone.psyGen import PSyFactory, CodedKern
+    from psyclone.domain.lfric import LFRicLoop
+    Config.get().api = "lfric"
+    with tempfile.TemporaryDirectory() as tmp:
+        for name, text in [("prolong_w3_kernel_mod.f90", PROLONG_KERNEL),
+                           ("op_inc_kernel_mod.f90", OP_INC_KERNEL),
+                           ("c23_demo.f90", ALG)]:
+            with open(os.path.join(tmp, name), "w") as fout:
+                fout.write(text)
+        _, info = parse(os.path.join(tmp, "c23_demo.f90"), api="lfric",
+                        kernel_paths=[tmp])
+    psy = PSyFactory("lfric", distributed_memory=dm).create(info)
+    sched = psy.invokes.get(invoke_name).schedule
+    loops = [lp for lp in sched.walk(LFRicLoop) if lp.walk(CodedKern)]
+    return psy, sched, loops[0]
+
+
+def special_kernels():
+    """run-time contract of the validators / independent_iterations on the
+    two special kernels; returns a replay dict"""
+    from psyclone.transformations import (DynamoOMPParallelLoopTrans,
+                                          Dynamo0p3OMPLoopTrans,
+                                          TransformationError)
+    for inv in ("prolong", "op_inc"):
+        for dm in (False, True):
+            psy, sched, loop = _special(inv, dm)
+            if not loop.has_inc_arg() or loop.loop_type == "colour":
+                continue
+            if loop.independent_iterations():
+                return {"confirmed": True, "input_class": "independent",
+                        "input": {"invoke": inv, "dm": dm},
+                        "observed": "independent_iterations() is True for "
+                        "an uncoloured loop with an incremented continuous "
+                        "field"}
+            for trans in (Dynamo0p3OMPLoopTrans(),
+                          DynamoOMPParallelLoopTrans()):
+                try:
+                    trans.validate(loop)
+                except TransformationError:
+                    continue
+                return {"confirmed": True,
+                        "input_class": "disc-iteration-space:" + trans.name,
+                        "input": {"invoke": inv, "dm": dm,
+                                  "loop.field_space":
+                                  loop.field_space.orig_name},
+                        "observed": f"{trans.name}.validate accepts the "
+                        "uncoloured loop although a kernel argument is "
+                        "incremented (GH_INC on W1)"}
+    return {"confirmed": False}
